@@ -142,9 +142,9 @@ Props/C20.vos Props/C20.vok Props/C20.required_vos: Props/C20.v Base/Str.vos Mod
 Proofs/JsonFacts.vo Proofs/JsonFacts.glob Proofs/JsonFacts.v.beautified Proofs/JsonFacts.required_vo: Proofs/JsonFacts.v Base/Result.vo Base/Str.vo Base/AstOp.vo Gen/Tables_core.vo Model/Ast.vo Model/FM.vo Model/PFM.vo Model/Queries.vo Gen/Tables_json.vo Format/Json.vo
 Proofs/JsonFacts.vio: Proofs/JsonFacts.v Base/Result.vio Base/Str.vio Base/AstOp.vio Gen/Tables_core.vio Model/Ast.vio Model/FM.vio Model/PFM.vio Model/Queries.vio Gen/Tables_json.vio Format/Json.vio
 Proofs/JsonFacts.vos Proofs/JsonFacts.vok Proofs/JsonFacts.required_vos: Proofs/JsonFacts.v Base/Result.vos Base/Str.vos Base/AstOp.vos Gen/Tables_core.vos Model/Ast.vos Model/FM.vos Model/PFM.vos Model/Queries.vos Gen/Tables_json.vos Format/Json.vos
-Props/C05.vo Props/C05.glob Props/C05.v.beautified Props/C05.required_vo: Props/C05.v Base/Result.vo Model/FM.vo Model/PFM.vo Format/Json.vo Proofs/JsonFacts.vo Proofs/JsonVariant.vo
-Props/C05.vio: Props/C05.v Base/Result.vio Model/FM.vio Model/PFM.vio Format/Json.vio Proofs/JsonFacts.vio Proofs/JsonVariant.vio
-Props/C05.vos Props/C05.vok Props/C05.required_vos: Props/C05.v Base/Result.vos Model/FM.vos Model/PFM.vos Format/Json.vos Proofs/JsonFacts.vos Proofs/JsonVariant.vos
+Props/C05.vo Props/C05.glob Props/C05.v.beautified Props/C05.required_vo: Props/C05.v Base/Result.vo Model/FM.vo Model/PFM.vo Format/Json.vo Proofs/JsonFacts.vo Proofs/C09Facts.vo Proofs/JsonVariant.vo Proofs/JsonExtra.vo
+Props/C05.vio: Props/C05.v Base/Result.vio Model/FM.vio Model/PFM.vio Format/Json.vio Proofs/JsonFacts.vio Proofs/C09Facts.vio Proofs/JsonVariant.vio Proofs/JsonExtra.vio
+Props/C05.vos Props/C05.vok Props/C05.required_vos: Props/C05.v Base/Result.vos Model/FM.vos Model/PFM.vos Format/Json.vos Proofs/JsonFacts.vos Proofs/C09Facts.vos Proofs/JsonVariant.vos Proofs/JsonExtra.vos
 Proofs/FideFacts.vo Proofs/FideFacts.glob Proofs/FideFacts.v.beautified Proofs/FideFacts.required_vo: Proofs/FideFacts.v Base/Result.vo Base/Str.vo Base/AstOp.vo Model/Ast.vo Model/FM.vo Model/PFM.vo Model/Queries.vo Model/Sem.vo Gen/Tables_fide.vo Format/Xml.vo Proofs/QueriesFacts.vo
 Proofs/FideFacts.vio: Proofs/FideFacts.v Base/Result.vio Base/Str.vio Base/AstOp.vio Model/Ast.vio Model/FM.vio Model/PFM.vio Model/Queries.vio Model/Sem.vio Gen/Tables_fide.vio Format/Xml.vio Proofs/QueriesFacts.vio
 Proofs/FideFacts.vos Proofs/FideFacts.vok Proofs/FideFacts.required_vos: Proofs/FideFacts.v Base/Result.vos Base/Str.vos Base/AstOp.vos Model/Ast.vos Model/FM.vos Model/PFM.vos Model/Queries.vos Model/Sem.vos Gen/Tables_fide.vos Format/Xml.vos Proofs/QueriesFacts.vos
@@ -193,6 +193,9 @@ Proofs/AfmVariant.vos Proofs/AfmVariant.vok Proofs/AfmVariant.required_vos: Proo
 Proofs/JsonVariant.vo Proofs/JsonVariant.glob Proofs/JsonVariant.v.beautified Proofs/JsonVariant.required_vo: Proofs/JsonVariant.v Base/Result.vo Base/Str.vo Base/AstOp.vo Gen/Tables_json.vo Model/Ast.vo Model/FM.vo Model/PFM.vo Format/Json.vo Format/Glencoe.vo Proofs/JsonFacts.vo Proofs/GlencoeFacts.vo Proofs/C09Facts.vo
 Proofs/JsonVariant.vio: Proofs/JsonVariant.v Base/Result.vio Base/Str.vio Base/AstOp.vio Gen/Tables_json.vio Model/Ast.vio Model/FM.vio Model/PFM.vio Format/Json.vio Format/Glencoe.vio Proofs/JsonFacts.vio Proofs/GlencoeFacts.vio Proofs/C09Facts.vio
 Proofs/JsonVariant.vos Proofs/JsonVariant.vok Proofs/JsonVariant.required_vos: Proofs/JsonVariant.v Base/Result.vos Base/Str.vos Base/AstOp.vos Gen/Tables_json.vos Model/Ast.vos Model/FM.vos Model/PFM.vos Format/Json.vos Format/Glencoe.vos Proofs/JsonFacts.vos Proofs/GlencoeFacts.vos Proofs/C09Facts.vos
+Proofs/JsonExtra.vo Proofs/JsonExtra.glob Proofs/JsonExtra.v.beautified Proofs/JsonExtra.required_vo: Proofs/JsonExtra.v Base/Result.vo Base/Str.vo Base/AstOp.vo Gen/Tables_json.vo Model/Ast.vo Model/FM.vo Model/PFM.vo Format/Json.vo Proofs/JsonFacts.vo Proofs/C09Facts.vo Proofs/JsonVariant.vo
+Proofs/JsonExtra.vio: Proofs/JsonExtra.v Base/Result.vio Base/Str.vio Base/AstOp.vio Gen/Tables_json.vio Model/Ast.vio Model/FM.vio Model/PFM.vio Format/Json.vio Proofs/JsonFacts.vio Proofs/C09Facts.vio Proofs/JsonVariant.vio
+Proofs/JsonExtra.vos Proofs/JsonExtra.vok Proofs/JsonExtra.required_vos: Proofs/JsonExtra.v Base/Result.vos Base/Str.vos Base/AstOp.vos Gen/Tables_json.vos Model/Ast.vos Model/FM.vos Model/PFM.vos Format/Json.vos Proofs/JsonFacts.vos Proofs/C09Facts.vos Proofs/JsonVariant.vos
 Props/C09.vo Props/C09.glob Props/C09.v.beautified Props/C09.required_vo: Props/C09.v Base/Result.vo Base/AstOp.vo Model/Ast.vo Model/FM.vo Model/PFM.vo Format/Xml.vo Format/Ref.vo Proofs/FideFacts.vo Proofs/RefFacts.vo Proofs/C09Facts.vo Proofs/AfmVariant.vo Proofs/JsonVariant.vo Format/Json.vo Format/Glencoe.vo Format/Afm.vo
 Props/C09.vio: Props/C09.v Base/Result.vio Base/AstOp.vio Model/Ast.vio Model/FM.vio Model/PFM.vio Format/Xml.vio Format/Ref.vio Proofs/FideFacts.vio Proofs/RefFacts.vio Proofs/C09Facts.vio Proofs/AfmVariant.vio Proofs/JsonVariant.vio Format/Json.vio Format/Glencoe.vio Format/Afm.vio
 Props/C09.vos Props/C09.vok Props/C09.required_vos: Props/C09.v Base/Result.vos Base/AstOp.vos Model/Ast.vos Model/FM.vos Model/PFM.vos Format/Xml.vos Format/Ref.vos Proofs/FideFacts.vos Proofs/RefFacts.vos Proofs/C09Facts.vos Proofs/AfmVariant.vos Proofs/JsonVariant.vos Format/Json.vos Format/Glencoe.vos Format/Afm.vos
